@@ -52,6 +52,7 @@ type SimS3 struct {
 	Calls   []s3Call
 	// fault plan: fail the n-th Put / Get (1-based, 0 = none); body failure after k bytes
 	FailPutAt, FailGetAt int
+	ThrottlePutAt        int // n-th Put is answered with the SlowDown error code after the body was read
 	BodyFailAt           int // n-th Get returns a body that errors after BodyFailAfter bytes
 	BodyFailAfter        int
 	puts, gets           int
@@ -168,6 +169,11 @@ func (s *SimS3) PutObjectWithContext(ctx aws.Context, in *s3.PutObjectInput, opt
 	defer s.mu.Unlock()
 	s.puts++
 	s.Calls = append(s.Calls, s3Call{"put", aws.StringValue(in.Bucket), aws.StringValue(in.Key)})
+	if s.ThrottlePutAt != 0 && s.puts == s.ThrottlePutAt {
+		// the request (with its body) was sent; the service answers "slow down"
+		s.Fired["s3-put-throttled"]++
+		return nil, awserr.New("SlowDown", "Please reduce your request rate.", errInjS3)
+	}
 	if outcome == "fail" || (s.FailPutAt != 0 && s.puts == s.FailPutAt) {
 		s.Fired["s3-put-error"]++
 		return nil, errInjS3
@@ -255,7 +261,7 @@ func GenBackendScenario(seed uint64, tier string) *Scenario {
 			if g.Intn(8) == 0 {
 				switch sc.Cfg.KeyD {
 				case "s3":
-					op.F = "put-error"
+					op.F = []string{"put-error", "put-throttle"}[g.Intn(2)]
 				case "file":
 					op.F = []string{"missing-dir", "base-is-file"}[g.Intn(2)]
 				}
@@ -420,6 +426,11 @@ func (w *World) runBackendSequential(sc *Scenario, insts []*beInstance) {
 					s3sim.FailPutAt = s3sim.puts + 1
 					injected = true
 				}
+			case "put-throttle":
+				if s3sim != nil {
+					s3sim.ThrottlePutAt = s3sim.puts + 1
+					injected = true
+				}
 			case "missing-dir":
 				if dir != "" {
 					target = mastfile.NewPersistForPath(filepath.Join(dir, "no-such-subdir"))
@@ -438,12 +449,19 @@ func (w *World) runBackendSequential(sc *Scenario, insts []*beInstance) {
 			}
 			r := guard(func() error { return target.Store(ctx, name, append([]byte(nil), payload...)) })
 			if s3sim != nil {
-				s3sim.FailPutAt = 0
+				s3sim.FailPutAt, s3sim.ThrottlePutAt = 0, 0
 			}
 			w.st.OracleEvals++
 			if r.panicked != nil {
 				w.fail("store-panics/"+sc.Cfg.KeyD, "Store(%q, %d bytes): %s", name, len(payload), r)
 				return
+			}
+			if injected && op.F == "put-throttle" && r.err == nil {
+				// an adapter may retry a throttled request; then the write counts as successful and
+				// must read back exactly like any other
+				w.st.Probes["throttled-put-retried-by-adapter"]++
+				model[op.Key] = payload
+				continue
 			}
 			if injected {
 				if r.err == nil {
